@@ -339,3 +339,52 @@ func writeEvidence(verifDir, prop, tier string, level string, seed int, wall flo
 	}
 	return os.WriteFile(filepath.Join(dir, prop+".json"), append(b, '\n'), 0o644)
 }
+
+// Borrow runs another property's rules on the same program and adopts some of them under new
+// names: a property that rests on a mechanism another property already decides (the client on the
+// agent's Close, the retransmission schedule on the agent's deadline test, ...) claims that premise
+// itself, so that a change breaking it is reported under every property it breaks.
+var borrowCache = map[string]*PropResult{}
+
+func (r *Run) Borrow(fromProp string, rules map[string]string) {
+	key := r.P.Cfg.String() + "|" + fromProp
+	src, ok := borrowCache[key]
+	if !ok {
+		def, found := registry[fromProp]
+		if !found {
+			rc := r.Rule(r.Prop+".borrow", "borrowed rules resolve", 1)
+			rc.Fail(fromProp, "property to borrow from is not built")
+			rc.Done()
+			return
+		}
+		sub := newRun(r.P, fromProp, r.Tier)
+		def.Run(sub)
+		src = sub.Res
+		borrowCache[key] = src
+	}
+	for _, rr := range src.Rules {
+		nid, want := rules[rr.ID]
+		if !want {
+			continue
+		}
+		cp := rr
+		cp.ID = nid
+		cp.Desc = rr.Desc + " (shared with " + rr.ID + ")"
+		r.Res.Rules = append(r.Res.Rules, cp)
+	}
+	for _, f := range src.Findings {
+		nid, want := rules[f.Rule]
+		if !want {
+			continue
+		}
+		f.Prop = r.Prop
+		f.Rule = nid
+		r.Res.Findings = append(r.Res.Findings, f)
+	}
+	for _, fn := range src.Funcs {
+		if !r.fset[fn] {
+			r.fset[fn] = true
+			r.Res.Funcs = append(r.Res.Funcs, fn)
+		}
+	}
+}
